@@ -120,6 +120,8 @@ class World:
         task = asyncio.ensure_future(coro)
         self.cancelled_ops += 1
         self.loop.inject_after(cancel_after, task.cancel)
+        # a call that simply blocks (nothing to consume) makes no loop steps: cancel it by virtual time instead
+        fallback = self.loop.call_later(2.0, task.cancel)
         try:
             r = await task
             return True, r
@@ -128,6 +130,8 @@ class World:
                 raise
             self.cancel_effective += 1
             return False, None
+        finally:
+            fallback.cancel()
 
     def mk_params(self, spec: dict) -> tuple[Any, float | None, float | None]:
         from repid.data._parameters import DelayProperties, Parameters, RetriesProperties
